@@ -72,6 +72,16 @@ MUTATIONS = {
         "literal['the_string'].replace('\\\\', '\\\\\\\\').replace(\"'\", \"''\"))",
         "literal['the_string'].replace(\"'\", \"\\\\'\").replace('\\\\', '\\\\\\\\'))",
         "ClickHouse: apostrophe written as \\' and the backslash then doubled"),
+    'shapeC_truncate_table_name': (
+        'compiler/rule_translate.py',
+        "      self.table_num += 1\n    self.allocated_tables.add(t)",
+        "      self.table_num += 1\n    t = t[:63]\n    self.allocated_tables.add(t)",
+        'allocated table names cut to 63 characters after the uniqueness test'),
+    'shapeD_clickhouse_record_check': (
+        'compiler/expr_translate.py',
+        "      if self.dialect.Name() == 'ClickHouse' and record_type is None:",
+        "      if self.dialect.Name() in ('Clickhouse',) and record_type is None:",
+        'ClickHouse "Record needs type" diagnostic lost: AssertionError instead'),
 }
 
 
